@@ -41,6 +41,7 @@ type stCase struct {
 	forks   []rsFork
 	cur     *curRec
 	pushes  []hubPush
+	failNum uint64 // the user handler fails on the block with this number (0 = never)
 }
 
 func runStreamCase(o *Out, c stCase) {
@@ -66,6 +67,9 @@ func runStreamCase(o *Out, c stCase) {
 		} else {
 			forked.SetFile(bstream.BlockFileName(filePB(f.b)), []byte("garbage that is not dbin"))
 		}
+	}
+	if c.failNum != 0 {
+		o.Line("failnum %d", c.failNum)
 	}
 	if c.cur != nil {
 		o.Line("cursor %s %s %s %s", c.cur.step, c.cur.blk, c.cur.head, c.cur.lib)
@@ -137,6 +141,11 @@ func runStreamCase(o *Out, c stCase) {
 	h := bstream.HandlerFunc(func(blk *pbbstream.Block, obj interface{}) error {
 		mu.Lock()
 		o.Impl("%s", cursorableLine(blk, obj))
+		if c.failNum != 0 && blk.Number == c.failNum {
+			last = time.Now()
+			mu.Unlock()
+			return errInjectedHandler
+		}
 		k := count
 		count++
 		last = time.Now()
@@ -222,6 +231,8 @@ loop:
 		res = "stuck"
 	case runErr == nil:
 		res = "nil"
+	case errors.Is(runErr, errInjectedHandler):
+		res = "handlererr"
 	case errors.Is(runErr, stream.ErrStopBlockReached):
 		res = "stop"
 	case errors.As(runErr, &inv):
@@ -247,6 +258,8 @@ loop:
 	o.End()
 	fh.Shutdown(nil)
 }
+
+var errInjectedHandler = errors.New("injected handler failure (stream)")
 
 func suiteStream(o *Out, r *Rng, n int, tier string) {
 	scratch := func(blocks []TBlock, opts ...forkable.Option) (*forkable.Forkable, []curRec) {
@@ -406,7 +419,15 @@ func suiteStream(o *Out, r *Rng, n int, tier string) {
 			c.start = int64(c.stop) + int64(r.Intn(3)) // at or after the stop block
 			o.Stat("stream.start.at_or_after_stop", 1)
 		default:
-			_, evsX := scratch(L[:i0+1], forkable.WithExclusiveLIB(bstream.NewBlockRef(t.Root.ID, t.Root.Num)), forkable.WithKeptFinalBlocks(100000))
+			// the consumer got its cursor from a hub that had seen the history up to iX: usually the point at which this
+			// hub is now (i0), sometimes later (this hub has not yet received the cursor's block or its fork: it can only
+			// serve the cursor once they arrive, while the file phase is already under way)
+			iX := i0
+			if r.Intn(4) == 0 && len(L)-1 > i0 {
+				iX = i0 + 1 + r.Intn(len(L)-1-i0)
+				o.Stat("stream.start.cursor_from_a_hub_that_was_ahead", 1)
+			}
+			_, evsX := scratch(L[:iX+1], forkable.WithExclusiveLIB(bstream.NewBlockRef(t.Root.ID, t.Root.Num)), forkable.WithKeptFinalBlocks(100000))
 			var cand []curRec
 			for _, e := range evsX {
 				if e.step == "new" || e.step == "undo" || (e.step == "irr" && r.Intn(2) == 0) {
@@ -476,6 +497,15 @@ func suiteStream(o *Out, r *Rng, n int, tier string) {
 			o.Stat("stream.filter.custom", 1)
 		}
 		_ = lib0
+		// fault injection (C11): the user handler fails on one block — on the stop block itself in half of the cases
+		if r.Intn(4) == 0 {
+			if c.stop != 0 && r.Intn(2) == 0 {
+				c.failNum = c.stop
+			} else {
+				c.failNum = chain[r.Intn(len(chain))].Num
+			}
+			o.Stat("stream.handler_failure_injected", 1)
+		}
 		runStreamCase(o, c)
 	}
 }
@@ -516,6 +546,8 @@ func replayStream(o *Out, lines []string) {
 			c.forks = append(c.forks, rsFork{b: bu.blocks[0], present: true, readable: ws[2] == "1"})
 		case "cursor":
 			c.cur = &curRec{step: ws[1], blk: ws[2], head: ws[3], lib: ws[4]}
+		case "failnum":
+			fmt.Sscan(ws[1], &c.failNum)
 		case "hub":
 			bu := parseBundleLine([]string{"bundle", "0", ws[1]})
 			c.pushes = append(c.pushes, hubPush{b: bu.blocks[0], when: ws[2]})
